@@ -127,7 +127,7 @@ class SolveEnv:
         self.ODEBatch = g("jinns.data._Batchs", "ODEBatch")
 
     def params(self, tag):
-        return self.Params.make(nn_params=Sym(f'theta{tag}'), eq_params={'a': Sym(f'a{tag}')})
+        return self.Params.make(nn_params=Sym(f'theta{tag}'), eq_params={'a': Sym(f'a{tag}'), 'b': Sym(f'b{tag}')})
 
     def main_batch(self, name, step):
         return self.ODEBatch.make(temporal_batch=Sym('batch', name, step), param_batch_dict=None, obs_batch_dict=None)
